@@ -65,7 +65,9 @@ def scan(c, variant):
     widths = [len(M[0]) for M in c["motifs"]]
     names = ["s%d" % i for i in range(len(c["seqs"]))]
     thr = c["thr"][0] / c["thr"][1]
-    kw = dict(bin_size=1.0 / scale, eps=0.0, threshold=thr, reverse_complement=c["rc"])
+    # the flag as a caller may hold it: Python bool, numpy bool, 0 / 1
+    rcflag = [c["rc"], numpy.bool_(c["rc"]), int(c["rc"])][(variant // 7) % 3]
+    kw = dict(bin_size=1.0 / scale, eps=0.0, threshold=thr, reverse_complement=rcflag)
     ev = dict(motifs=c["motifs"], seqs=c["seqs"], thr=c["thr"], rc=c["rc"], scale=scale, hits=[], exact=True, fasta_same=True,
               dim1_same=True, counts_same=True, threads_same=True, variant=variant, tielt=tie_below(c))
     fa = os.path.join(TMP, "q%d_%d.fa" % (os.getpid(), variant))
